@@ -75,6 +75,32 @@ pub fn diff_pair(uni: &Universe, x: &dyn Subj, y: &dyn Subj, writer: &str, acc: 
         if p != c {
             bad!("text", json!({"kind":"text","text":t}), json!(format!("{:?}", p)), json!(format!("{:?}", c)));
         }
+    }
+    // Typed traces: only traces whose throwables are all known to the file. On a throwable that the
+    // mapping does not know the pinned 5.5.0 release drops the exception (defect D2, repaired in the
+    // current tree by the "fix: remap_stacktrace_typed keeps ..." commit, property C08); that difference
+    // is independent of the file's bytes and is not what C10 is about.
+    let known: Vec<&String> = uni.classes.iter().filter(|c| x.remap_class(c).is_some()).take(4).collect();
+    let mut typed_text = String::new();
+    for (i, c) in known.iter().enumerate() {
+        typed_text.push_str(&if i == 0 { format!("{}: boom\n", c) } else { format!("Caused by: {}: inner {}\n", c, i) });
+        for cls in uni.classes.iter().take(4) {
+            for m in uni.methods.iter().take(4) {
+                for l in uni.lines_short.iter() {
+                    typed_text.push_str(&format!("    at {}.{}(F.java:{})\n", cls, m, l));
+                }
+            }
+        }
+        typed_text.push_str("    at zz.Unknown.x(U.java:3)\n");
+    }
+    if known.is_empty() {
+        for cls in uni.classes.iter().take(4) {
+            for m in uni.methods.iter().take(4) {
+                typed_text.push_str(&format!("    at {}.{}(F.java:1)\n", cls, m));
+            }
+        }
+    }
+    for t in [&typed_text] {
         let (p, c) = (x.remap_typed_text(t), y.remap_typed_text(t));
         acc.observations += 1;
         if p != c {
@@ -264,7 +290,7 @@ pub fn run(tier: Tier) -> i32 {
         level: "model_checking",
         rule: "states = mappings; transitions = write with release W in {pinned 5.5.0, current}, then parse with both releases' readers; in every state the complete query universe is answered by both readers of the same file and compared (a reader may instead reject with WrongVersion, nothing else). distinct = distinct pinned-reader answers; non-trivial = non-empty answers".into(),
         bounds: json!({"scopes": spaces.iter().map(|s| { let mut d = s.describe(); if d.get("alphabet").is_some() { d["alphabet"] = json!("see pgmc/src/e1.rs"); } d }).collect::<Vec<_>>(), "corpus_files": corpus.len(), "release_pairs": 4}),
-        assumptions: vec!["'the pinned release' = the vendored snapshot /verif/pinned (src/ of commit f3fcb84, crate version 5.5.0) built with the same profile".into()],
+        assumptions: vec!["typed-trace queries use traces whose throwables are known to the file: on unknown throwables the pinned release drops the exception (defect D2, repaired in the current tree; property C08), independent of the file".into(), "'the pinned release' = the vendored snapshot /verif/pinned (src/ of commit f3fcb84, crate version 5.5.0) built with the same profile".into()],
         trusted_base: vec!["rustc/std".into(), "vendored snapshot /verif/pinned".into()],
     };
     finish(meta, acc, &budget, &|c| recheck(c))
